@@ -276,4 +276,34 @@ mod verif_k {
         }
         kani::cover!(n == 2 && b[0] == 0xff, "all-ones identifier reachable");
     }
+
+    // thorough tier: the recursive parser itself on every buffer of <= 4 bytes against the framing reference
+    // (cross-check of the seam between the Kani leaf clauses and the Verus contract of parse_tag)
+    #[kani::proof]
+    #[kani::unwind(2)]
+    fn parse_tag_framing_le4() {
+        let b: [u8; 4] = kani::any();
+        let n: usize = kani::any();
+        kani::assume(n <= 4);
+        let r = parse_tag(&b[..n]);
+        // bytes announced by the outer header, when the header is complete within n bytes
+        let need: Option<usize> = if n < 2 { None } else if b[1] < 128 { Some(2 + b[1] as usize) }
+            else if b[1] == 0x81 { if n >= 3 { Some(3 + b[2] as usize) } else { None } }
+            else if b[1] == 0x82 { if n >= 4 { Some(4 + ((b[2] as usize) << 8 | b[3] as usize)) } else { None } }
+            else if b[1] == 0x80 { Some(2) }
+            else { None };
+        if n == 0 { assert!(matches!(r, Err(nom::Err::Incomplete(_)))); }
+        if let Some(k) = need {
+            if n < k { assert!(matches!(r, Err(nom::Err::Incomplete(_)))); }
+            else {
+                assert!(!matches!(r, Err(nom::Err::Incomplete(_))));
+                if let Ok((rest, t)) = &r {
+                    assert!(rest.len() == n - k);
+                    assert!(t.class as u8 == b[0] >> 6 && t.id == (b[0] & 0x1f) as u64);
+                }
+                if b[0] & 0x20 == 0 { assert!(r.is_ok()); }
+            }
+        }
+        kani::cover!(n == 4 && b[0] == 0x30 && b[1] == 2, "constructed with inner TLV reachable");
+    }
 }
